@@ -1490,6 +1490,17 @@ class Interp:
 
     def compare(self, op: str, l: T, r: T) -> T:
         lu, ru = self.unname(l), self.unname(r)
+        if op in ("In", "NotIn"):
+            # frozenset({...}) / set([...]) / tuple([...]) of a literal
+            # collection has that collection's members
+            for _ in range(3):
+                if ru.op == "call" and tm.callee_name(ru) in (
+                        "builtins.frozenset", "builtins.set",
+                        "builtins.tuple", "builtins.list") and \
+                        len(ru.args[1]) == 1 and not ru.args[2]:
+                    ru = self.unname(ru.args[1][0])
+                else:
+                    break
         if op in ("Eq", "Is", "NotEq", "IsNot"):
             eq = None
             if lu.op in ("const", "enum") and ru.op in ("const", "enum"):
